@@ -2,8 +2,9 @@
 full-width left floats, `clear`), run through the real layout and canonicalised to the `pmoof` driver's output.
 
 Document = dict(pageH, ltr, root); box = dict(kind='para'|'block', id, st, n, lineH, kids, pos, clear)
-with pos in 'static' | 'abs' | 'float' and clear a bool (`clear:left`).  Out-of-flow boxes hold only static
-descendants (grammar restriction of stage 2a).
+with pos in 'static' | 'abs' | 'float' and clear a bool (`clear:left`).  Out-of-flow boxes may hold out-of-flow
+boxes (round 3), except an absolutely positioned box inside an absolutely positioned box (grammar restriction of
+stage 2a: its placeholder belongs to that box's own `absolute_boxes` list).
 """
 from fractions import Fraction
 
@@ -32,7 +33,7 @@ def css_of(box):
     css = pm.css_of(box['st'], kind, box.get('lineH'))
     pos = box.get('pos', 'static')
     if pos == 'abs':
-        css += ';position:absolute;width:100px'
+        css += ';position:absolute;width:200px'       # the page width: a float inside stays full-width on every page
     elif pos == 'float':
         css += ';float:left;width:100%'
     if box.get('clear'):
@@ -84,10 +85,22 @@ def run_real(doc):
     broken_after = {}
     real_make_page = page_module.make_page
 
+    line_of = {}
+
+    def note_lines(fragment):
+        for box in fragment.descendants(placeholders=True):
+            if isinstance(box, boxes.LineBox):
+                pid, i = pm.line_ident(box)
+                if pid is not None:
+                    line_of[(pid, repr(getattr(box, 'resume_at', None)))] = i + 1
+
     def spy_make_page(context_, root_box_, page_type, resume_at, page_number, page_state):
         result = real_make_page(context_, root_box_, page_type, resume_at, page_number, page_state)
         broken_after[page_number - 1] = [
             (int(box.element.get('id')[1:]), skip) for box, _, skip in context_.broken_out_of_flow.values()]
+        for fragment in context_.broken_out_of_flow:
+            # the cut fragment itself: it may be on no page (a box registered and then dropped from the page)
+            note_lines(fragment)
         return result
     page_module.make_page = spy_make_page
     try:
@@ -103,13 +116,8 @@ def run_real(doc):
             index_boxes(kid)
     index_boxes(doc['root'])
 
-    line_of = {}
     for page in pages:
-        for box in page.descendants(placeholders=True):
-            if isinstance(box, boxes.LineBox):
-                pid, i = pm.line_ident(box)
-                if pid is not None:
-                    line_of[(pid, repr(getattr(box, 'resume_at', None)))] = i + 1
+        note_lines(page)
 
     out = []
     for index, page in enumerate(pages):
@@ -168,10 +176,14 @@ def all_boxes(doc):
     return out
 
 
-def gen_doc(rng, size=None, mode='mixed'):
+def gen_doc(rng, size=None, mode='mixed', nest=True):
     """A stage-1 document (pm.gen_doc: margins, paddings, borders, heights, breaks, named pages,
     orphans/widows, clone) in which boxes are taken out of the flow: `mode` in static | abs | float | mixed.
     Out-of-flow boxes keep only static descendants; `clear` on floats and on static boxes."""
+    if mode == 'nested' or (mode == 'mixed' and nest and rng.random() < 0.25):
+        return nest_oof(gen_doc(rng, size, rng.choice(['mixed', 'mixed', 'float', 'scenario']), nest=False), rng)
+    if mode == 'keep' or (mode == 'mixed' and rng.random() < 0.12):
+        return gen_keep_together(rng)
     if mode == 'scenario' or (mode == 'mixed' and rng.random() < 0.4):
         return gen_scenario(rng)
     doc = pm.gen_doc(rng, size)
@@ -234,11 +246,35 @@ def gen_doc(rng, size=None, mode='mixed'):
     return doc
 
 
+def nest_oof(doc, rng):
+    """Float boxes *inside* out-of-flow boxes too (floats in floats, floats in absolutely positioned boxes).
+    Not generated: an absolutely positioned box inside an absolutely positioned box (its placeholder would belong to
+    that box's own `absolute_boxes` list: outside the model, the driver answers bad-op), and an absolutely positioned
+    box inside a float (the model covers it - 300 documents agree - except where the finding
+    nested-out-of-flow-in-postponed-float lays the same source box out twice on one page: the two
+    AbsolutePlaceholders then share the source box's position, an aliasing the model does not have)."""
+    p_nest = rng.choice([0.25, 0.5, 0.8])
+
+    def walk(box, inside, in_abs):
+        for kid in box['kids']:
+            if inside and kid['pos'] == 'static' and rng.random() < p_nest:
+                kid['pos'] = 'float'
+                if kid['pos'] == 'float' and rng.random() < 0.25:
+                    kid['clear'] = True
+                if rng.random() < 0.2:
+                    kid['st']['height'] = Fraction(rng.choice([0, 10, 20, 30, 50]))
+            walk(kid, inside or kid['pos'] != 'static', in_abs or kid['pos'] == 'abs')
+    walk(doc['root'], False, False)
+    return doc
+
+
 def features(doc):
     tags = set(pm.features(doc))
-    for box, _, _, _ in all_boxes(doc):
+    for box, _, _, inside in all_boxes(doc):
         if box['pos'] != 'static':
             tags.add(box['pos'])
+            if inside:
+                tags.add('nested-' + box['pos'])
             if box['st']['height'] != 'auto':
                 tags.add(box['pos'] + '-fixed-height')
         if box['clear']:
@@ -431,3 +467,94 @@ def gen_scenario(rng):
     body = dict(kind='block', id=nid(), st=body_st, kids=body_kids, pos='static', clear=False)
     root = dict(kind='block', id=nid(), st=root_st, kids=[body], pos='static', clear=False)
     return dict(pageH=Fraction(page_h), ltr=rng.random() < 0.8, root=root)
+
+
+def gen_keep_together(rng):
+    """The page break has to move to an earlier boundary (`find_earlier_page_break`) across out-of-flow siblings:
+    filler, A, out-of-flow boxes, B (break-after: avoid, or C break-before: avoid), C that does not fit and cannot
+    be split (orphans = its line count, or break-inside: avoid) — optionally one level down, with out-of-flow boxes
+    before A / after B as well, so that every position of the cut relative to the out-of-flow boxes occurs: cut
+    right after them, right before them, between two of them."""
+    counter = [0]
+
+    def nid():
+        counter[0] += 1
+        return counter[0]
+
+    line_h = Fraction(rng.choice([10, 10, 12, 20]))
+
+    def para(n, pos='static', **kw):
+        st = pm.default_style(**kw)
+        return dict(kind='para', id=nid(), n=n, lineH=line_h, st=st, kids=[], pos=pos, clear=False)
+
+    def block(kids, pos='static', **kw):
+        return dict(kind='block', id=nid(), st=pm.default_style(**kw), kids=kids, pos=pos, clear=False)
+
+    def oofs(p_some):
+        out = []
+        while rng.random() < p_some and len(out) < 3:
+            pos = rng.choice(['abs', 'float', 'float'])
+            n = rng.choice([1, 1, 2, 3])
+            box = para(n, pos)
+            if rng.random() < 0.2:
+                box = block([para(n)], pos)
+            if pos == 'float' and rng.random() < 0.25:
+                box['clear'] = True
+            if rng.random() < 0.2:
+                box['st']['height'] = Fraction(rng.choice([0, 5, 10, 20]))
+            out.append(box)
+            p_some *= 0.6
+        return out
+
+    filler_n = rng.choice([0, 1, 2, 3, 4])
+    a_n = rng.choice([1, 1, 2, 3])
+    b_n = rng.choice([1, 1, 2])
+    c_n = rng.choice([2, 3, 4, 5])
+    between = oofs(0.9)
+    float_lines = sum(b['n'] if b['kind'] == 'para' else b['kids'][0]['n']
+                      for b in between if b['pos'] == 'float' and b['st']['height'] == 'auto')
+    used = filler_n + a_n + b_n + float_lines
+    page_lines = used + rng.choice([0, 1, 1, 2, min(c_n - 1, 3)])
+    page_h = page_lines * line_h + rng.choice([0, 0, line_h / 2, 3])
+    avoid = rng.choice(['avoid', 'avoid', 'avoid-page'])
+    a = para(a_n)
+    b = para(b_n)
+    c = para(c_n)
+    how = rng.random()
+    if how < 0.5:
+        b['st']['brkAfter'] = avoid
+    elif how < 0.8:
+        c['st']['brkBefore'] = avoid
+    else:
+        b['st']['brkAfter'] = avoid
+        a['st']['brkAfter'] = rng.choice(['auto', avoid])
+    if rng.random() < 0.7:
+        c['st']['orphans'] = min(c_n, 4)
+        if c_n > 4:
+            c['st']['widows'] = rng.choice([1, 2])
+    else:
+        c['st']['brkInside'] = avoid
+    if rng.random() < 0.25:
+        b['st']['orphans'] = rng.choice([1, 2, 3])
+    if rng.random() < 0.3:
+        a['st']['widows'] = rng.choice([1, 2, 3])
+        a['st']['orphans'] = rng.choice([1, 2])
+    run = oofs(0.3) + [a] + between + [b] + oofs(0.3) + [c] + oofs(0.2)
+    if rng.random() < 0.3:
+        # the tail one level down: the earlier break is found inside a nested block
+        cut = rng.randrange(0, len(run))
+        run = run[:cut] + [block(run[cut:])]
+    elif rng.random() < 0.3:
+        i = run.index(b)
+        run[i] = block([b] + ([] if rng.random() < 0.5 else oofs(0.8)))
+    kids = ([para(filler_n)] if filler_n else []) + run
+    if rng.random() < 0.5:
+        kids.append(para(rng.choice([1, 2, 5])))
+    for box in kids:
+        if rng.random() < 0.1 and box['pos'] == 'static':
+            box['st']['mt'] = Fraction(rng.choice([2, 4, 8]))
+        if rng.random() < 0.1 and box['pos'] == 'static':
+            box['st']['mb'] = Fraction(rng.choice([2, 4, 8]))
+    body = dict(kind='block', id=nid(), st=pm.default_style(), kids=kids, pos='static', clear=False)
+    root = dict(kind='block', id=nid(), st=pm.default_style(isRoot=True), kids=[body], pos='static', clear=False)
+    return dict(pageH=Fraction(page_h), ltr=rng.random() < 0.85, root=root)
